@@ -1,5 +1,18 @@
 """Which contract families decide which property, and at what claimed level."""
 PROPS = {
+    'C16': {
+        'families': ['contracts.routing'],
+        'level': 'proof',
+        'technique': 'contract-based deductive verification: VCs generated from the real AST, discharged by z3/cvc5',
+        'text': 'is_mutable against an uninterpreted router function (result true iff the routers put the model on the '
+                'evolved database), AppSignature.from_app (loop invariant: models added = router-allowed models, in order), '
+                'generate_mutations_info (exactly the mutable mutations reach the mutator, once). All inputs/all iterations.',
+        'level_note': "Trusted: pyvc engine/encoding; Django's router as uninterpreted route()/router_allows(); stubs for "
+                      'get_models, get_app_upgrade_info, AppSignature.__init__/add_model, AppMutator.from_evolver/run_mutations/'
+                      'to_sql, ProjectSignature.get_app_sig; dynamic dispatch of is_mutable abstracted as mutable(). Not decided: '
+                      'contents of the other database file; executor alias (see C07).',
+        'not_decided': ['file contents of the second database', 'DeleteApplication per-model filter (covered under C15)'],
+    },
     'C18': {
         'families': ['contracts.table_ops'],
         'level': 'proof',
